@@ -970,6 +970,10 @@ func (vfs *OrefaFS) ToSysStat(info fs.FileInfo) avfs.SysStater {
 func (vfs *OrefaFS) Truncate(name string, size int64) error {
 	op := "truncate"
 
+	if size < 0 {
+		return &fs.PathError{Op: op, Path: name, Err: vfs.err.InvalidArgument}
+	}
+
 	absPath, _ := vfs.Abs(name)
 
 	vfs.mu.RLock()
